@@ -21,9 +21,21 @@ func init() {
 // refinements.
 func verifC17Refinements() {
 	maxBody := 5 + vTier()
-	n := 2 + vChoice("bodylen", maxBody-1)
-	body := vBytes("in", n)
-	b := append([]byte{0xc7, byte(n), 0x0c}, body...)
+	var b []byte
+	switch vChoice("header", 3) {
+	case 0:
+		n := 2 + vChoice("bodylen", maxBody-1)
+		body := vBytes("in", n)
+		b = append([]byte{0xc7, byte(n), 0x0c}, body...)
+	case 1:
+		// ext 16: two unconstrained length bytes, an unconstrained type code, 0..1 body bytes
+		rest := vBytes("in", 3+vChoice("bodylen16", 2))
+		b = append([]byte{0xc8}, rest...)
+	default:
+		// ext 32: four unconstrained length bytes, an unconstrained type code, 0..1 body bytes
+		rest := vBytes("in", 5+vChoice("bodylen32", 2))
+		b = append([]byte{0xc9}, rest...)
+	}
 	ty := []cty.Type{cty.String, cty.Number, cty.Bool, cty.List(cty.String), cty.Map(cty.Bool), cty.Set(cty.Number), cty.EmptyObject, cty.DynamicPseudoType}[vChoice("ty", 8)]
 	var v cty.Value
 	var err error
@@ -92,4 +104,66 @@ func verifC17ImpliedType() {
 	vAssert("impliedtype-no-panic", !p)
 	_ = err
 	vReach("end")
+}
+
+func init() {
+	verifRegister("verifC17Skeletons", verifC17Skeletons)
+}
+
+// verifC17Skeletons: inputs longer than the plain decoder harness reaches, as fixed structural skeletons with
+// unconstrained bytes in the places that carry keys, key type codes and members: two-entry maps and objects (duplicate
+// keys, keys that are not strings, keys the type does not have), two-member sets (duplicates), tuples and nested lists.
+func verifC17Skeletons() {
+	var b []byte
+	var ty cty.Type
+	in := func(n int) []byte { return vBytes("in", n) }
+	switch vChoice("skeleton", 7) {
+	case 0: // 82 a1 K V a1 K V  as an object with two attributes
+		h := in(4)
+		b = []byte{0x82, 0xa1, h[0], h[1], 0xa1, h[2], h[3]}
+		ty = cty.Object(map[string]cty.Type{"a": cty.Number, "b": cty.Number})
+	case 1: // the same bytes as a map
+		h := in(4)
+		b = []byte{0x82, 0xa1, h[0], h[1], 0xa1, h[2], h[3]}
+		ty = cty.Map(cty.Number)
+	case 2: // key type codes unconstrained too (keys that are not strings)
+		h := in(6)
+		b = []byte{0x82, h[0], h[1], h[2], h[3], h[4], h[5]}
+		ty = []cty.Type{cty.Map(cty.Number), cty.Object(map[string]cty.Type{"a": cty.Number, "b": cty.Number})}[vChoice("keyed", 2)]
+	case 3: // 92 V V as a set (duplicates) or a list
+		h := in(2)
+		b = []byte{0x92, h[0], h[1]}
+		ty = []cty.Type{cty.Set(cty.Number), cty.Set(cty.Bool), cty.List(cty.Number)}[vChoice("seq", 3)]
+	case 4: // 92 V V as a tuple
+		h := in(2)
+		b = []byte{0x92, h[0], h[1]}
+		ty = cty.Tuple([]cty.Type{cty.Number, cty.Bool})
+	case 5: // 92 91 V 91 V as a list of lists / set of lists
+		h := in(2)
+		b = []byte{0x92, 0x91, h[0], 0x91, h[1]}
+		ty = []cty.Type{cty.List(cty.List(cty.Bool)), cty.Set(cty.List(cty.Number))}[vChoice("nested", 2)]
+	default: // 81 a1 K 92 V V : an object holding a tuple
+		h := in(3)
+		b = []byte{0x81, 0xa1, h[0], 0x92, h[1], h[2]}
+		ty = cty.Object(map[string]cty.Type{"a": cty.Tuple([]cty.Type{cty.Number, cty.Number})})
+	}
+	var v cty.Value
+	var err error
+	p := vExpectPanic(func() { v, err = Unmarshal(b, ty) })
+	vLog("in=%x ty=%#v v=%#v err=%v", b, ty, v, err)
+	vAssert("unmarshal-no-panic", !p)
+	if p {
+		return
+	}
+	if err == nil {
+		vAssert("decoded-value-has-requested-type", c17Conforms(v.Type(), ty))
+		why := cty.VerifWellFormed(v)
+		if why != "" {
+			vLog("ill-formed: %s", why)
+		}
+		vAssert("decoded-value-well-formed", why == "")
+		vReach("end-value")
+	} else {
+		vReach("end-error")
+	}
 }
